@@ -1047,11 +1047,11 @@ reg('C05', run_C05, ['Prop_C05.v'], BERULE + 'evaluations = cells looked up thro
     level_note=MODEL_NOTE)
 reg('C06', run_C06, ['Prop_C06.v'], I6RULE + 'evaluations = rejected runs; non-trivial = distinct (conflict-free grammar, non-sentence) whose error position is compared with an Earley viable-prefix computation',
     technique='Coq theorems (no Crash / nil return under the table certificate; a token is shifted only if input-so-far plus that token begins a sentence: soundness of LR(1) items over access paths + parse trees on the stack + productivity) + outcome classification and fetch count of every rejected run of the real parsers vs Earley viable-prefix computation and the model',
-    level_text='Proved in Coq: under the certificate satisfied by generated tables the LR machine never ends in Crash or a nil return; it accepts, reports a syntax error or is still running (C06_no_crash), also for the model pipeline as run in every variant (C06_pipeline); and the error is reported at the first bad token: after any number of steps from the initial configuration, for ANY table satisfying the certificate (any lookahead sets, any precedences), if the next action shifts the next token then the input read so far followed by that token begins a sentence - so a token that cannot continue any sentence is never shifted, and because an Error cell stops the machine, nothing after it is requested (C06_never_shifts_a_bad_token, via C06_shift_extends_viable_prefix: the stack symbols plus a shiftable symbol are a viable prefix; C06_step_is_run ties the step function to the machine of the other theorems). Every rejected run of the five real variants must use the documented error channel; for conflict-free grammars the number of tokens requested at the error must be (first token that cannot continue a sentence)+1 as computed by an Earley recogniser; every accepted run is re-executed by the verified checker. Halting on non-sentences (finitely many reductions before the error) is checked by a reduction limit, not proved (partial). C06_from_the_text: the same for the table computed from the bytes of a grammar file, every hypothesis (table certificate, well-formed grammar object, every symbol productive) discharged for every text on which the generator model delivers tables.',
+    level_text='Proved in Coq: under the certificate satisfied by generated tables the LR machine never ends in Crash or a nil return; it accepts, reports a syntax error or is still running (C06_no_crash), also for the model pipeline as run in every variant (C06_pipeline); and the error is reported at the first bad token: after any number of steps from the initial configuration, for ANY table satisfying the certificate (any lookahead sets, any precedences), if the next action shifts the next token then the input read so far followed by that token begins a sentence - so a token that cannot continue any sentence is never shifted, and because an Error cell stops the machine, nothing after it is requested (C06_never_shifts_a_bad_token, via C06_shift_extends_viable_prefix: the stack symbols plus a shiftable symbol are a viable prefix; C06_step_is_run ties the step function to the machine of the other theorems). Every rejected run of the five real variants must use the documented error channel; for conflict-free grammars the number of tokens requested at the error must be (first token that cannot continue a sentence)+1 as computed by an Earley recogniser; every accepted run is re-executed by the verified checker. Halting on non-sentences (finitely many reductions before the error) is checked by a reduction limit, not proved (partial). C06_from_the_text: the same for the table computed from the bytes of a grammar file, every hypothesis (table certificate, well-formed grammar object, every symbol productive) discharged for every text on which the generator model delivers tables. C06_no_crash_from_the_text: for the tables computed from a text, no variant crashes or returns nil on any input (the only hypothesis left is the agreement of the packed lookups with the matrix, C05).',
     level_note=MODEL_NOTE + ' The Earley recogniser (python) is untrusted search: a case it flags is confirmed against the model.')
 reg('C07', run_C07, ['Prop_C07.v'], I6RULE + 'actions: $$ = (c + sum coef_i*$i) mod 1000003 with random coefficients and random union fields per symbol; non-trivial = accepted inputs whose derivation uses a rule of length >= 2',
     technique='Coq theorem (value returned = bottom-up evaluation over the parse tree, Dollar slice addressing for every rule length) + verified replay of every accepted run of the real parsers with random linear actions',
-    level_text="Proved in Coq: an accepted run returns veval of the parse tree whose post-order is the reduction sequence, for rules of every length including 0 (C07_values), also for the model pipeline as run in every variant (C07_pipeline); the replay checker is sound (C07_replay_checker); the action code of production i is taken from entry i-1 of the rule list of the grammar file and the front-end model keeps the two aligned (C07_action_alignment), with the last action body of an alternative as its action (C04_rule_precedence states both). Every accepted run of the five real variants with random linear actions (incl. rules with 10-13 symbols reading $10..$13, alternatives sharing their action text, duplicate productions) and random union fields is replayed by the extracted checker and its value compared with the model's.",
+    level_text="Proved in Coq: an accepted run returns veval of the parse tree whose post-order is the reduction sequence, for rules of every length including 0 (C07_values), also for the model pipeline as run in every variant (C07_pipeline); the replay checker is sound (C07_replay_checker); the action code of production i is taken from entry i-1 of the rule list of the grammar file and the front-end model keeps the two aligned (C07_action_alignment), with the last action body of an alternative as its action (C04_rule_precedence states both). Every accepted run of the five real variants with random linear actions (incl. rules with 10-13 symbols reading $10..$13, alternatives sharing their action text, duplicate productions) and random union fields is replayed by the extracted checker and its value compared with the model's. C07_from_the_text: the same for the tables computed from the bytes of a grammar file; the hypothesis that every reduction finds a goto is itself proved of every emitted table (C07_goto_after_reduce).",
     level_note=MODEL_NOTE + ' User actions are modelled as pure functions of the $n values.')
 reg('C08', run_C08, ['Prop_C08.v'], I6RULE + 'evaluations = (grammar, job, variant pair) comparisons of verdict, reductions with fetch stamps, value, fetch count; non-trivial = jobs with an accepted parse',
     technique='Coq theorem (array-and-pointer driver simulates the abstract machine; packed lookup = dense cell) + pairwise comparison of the five real variants on identical inputs',
